@@ -189,6 +189,12 @@ class SrcInfo:
                     for mm in re.finditer(r'\bimpl\s+', p):
                         # capture the impl-trait type text up to depth-0 end
                         t = p[mm.start():]
+                        depth_ = 0
+                        for k_, ch_ in enumerate(t):
+                            if ch_ in '([<': depth_ += 1
+                            elif ch_ in ')]' or (ch_ == '>' and t[k_ - 1] not in '-='):
+                                depth_ -= 1
+                                if depth_ < 0: t = t[:k_]; break
                         # cut at a top-level ',' or ')' — p is already one param; strip trailing
                         anon.append(' '.join(t.split()))
                         break
@@ -208,6 +214,20 @@ class SrcInfo:
         return names
 
     # ---- queries
+    def derive_at(self, relfile, line, c1, c2, rawsrc=None):
+        """impl generated by #[derive(Trait)] whose span is the trait token at line:c1..c2 -> impl dict"""
+        src = self.files.get(relfile)
+        if src is None: return None
+        lines = src.split('\n')
+        if line - 1 >= len(lines): return None
+        tok = lines[line - 1][c1 - 1:c2 - 1].strip()
+        if not re.match(r'^[A-Za-z_]\w*$', tok): return None
+        rest = '\n'.join(lines[line - 1:])
+        m = re.search(r'\b(struct|enum)\s+([A-Za-z_]\w*)\s*(<[^>{(;]*>)?', rest)
+        if not m: return None
+        gens = generic_names(m.group(3)[1:-1]) if m.group(3) else []
+        return dict(trait=tok, self_ty=m.group(2) + (m.group(3) or ''), generics=gens, body=(0, 0), file=relfile, derived=True)
+
     def alias_for(self, name, ctx_file):
         """alias target text if `name`, written in `ctx_file`, denotes a type alias (not a same-named ADT)"""
         als = self.aliases.get(name)
